@@ -623,6 +623,7 @@ var mulOps = map[string]token.Token{"itemMul": token.MUL, "itemDiv": token.QUO, 
 func isRel(t token.Token) bool {
 	return t == token.GTR || t == token.GEQ || t == token.LSS || t == token.LEQ
 }
+
 var compoundOp = map[token.Token]token.Token{token.ADD_ASSIGN: token.ADD, token.SUB_ASSIGN: token.SUB, token.MUL_ASSIGN: token.MUL, token.QUO_ASSIGN: token.QUO, token.REM_ASSIGN: token.REM}
 
 func isArith(t token.Token) bool {
